@@ -49,6 +49,21 @@ pub struct Chunk {
     pub submits: bool,
     /// Written together with the next chunk in one `write` (a paste, or fast typing ahead).
     pub with_next: bool,
+    /// Keys the *program* reads while this line's command runs (GETC/IN on the terminal): each
+    /// is typed once the terminal is in raw mode again after the line's newline.
+    pub program_keys: Vec<Vec<u8>>,
+    /// With program keys: number of prompt redraws once the next prompt is up.
+    pub redraws_after: usize,
+}
+
+/// How the environment of the session is set up.
+#[derive(Clone, Debug, Default)]
+pub struct PtyEnv {
+    /// The cache directory: "" exists, "missing" does not exist, "under_file" cannot exist.
+    pub cache_dir: String,
+    /// File size limit (RLIMIT_FSIZE, SIGXFSZ ignored): appending to the history file fails
+    /// beyond it.
+    pub fsize_limit: Option<u64>,
 }
 
 #[derive(Debug, Default)]
@@ -134,9 +149,22 @@ fn newlines(stdout: &[u8]) -> usize {
 /// Run `lace debug <asm>` on a pty, typing `chunks`. `history_before`: contents of the history
 /// file before the session (`None`: no file).
 pub fn run_pty(scratch: &Scratch, asm: &Path, minimal: bool, cols: u16, history_before: Option<&[u8]>, chunks: &[Chunk]) -> PtyRun {
+    run_pty_in(scratch, asm, minimal, cols, history_before, chunks, &PtyEnv::default())
+}
+
+pub fn run_pty_in(scratch: &Scratch, asm: &Path, minimal: bool, cols: u16, history_before: Option<&[u8]>, chunks: &[Chunk], env: &PtyEnv) -> PtyRun {
     let mut run = PtyRun::default();
-    let cache = scratch.path("cache");
-    let _ = std::fs::create_dir_all(&cache);
+    let cache = match env.cache_dir.as_str() {
+        "missing" => scratch.path("no-such-cache"),
+        "under_file" => {
+            let _ = std::fs::write(scratch.path("a-file"), b"x");
+            scratch.path("a-file").join("cache")
+        }
+        _ => scratch.path("cache"),
+    };
+    if env.cache_dir.is_empty() {
+        let _ = std::fs::create_dir_all(&cache);
+    }
     let history_file = cache.join("lace-debugger-history");
     let _ = std::fs::remove_file(&history_file);
     if let Some(bytes) = history_before {
@@ -167,8 +195,18 @@ pub fn run_pty(scratch: &Scratch, asm: &Path, minimal: bool, cols: u16, history_
         .stdin(Stdio::from(slave_in))
         .stderr(Stdio::from(slave_err))
         .stdout(Stdio::piped());
+    let fsize_limit = env.fsize_limit;
     unsafe {
-        cmd.pre_exec(|| {
+        cmd.pre_exec(move || {
+            if let Some(limit) = fsize_limit {
+                // A genuine failing append (EFBIG) instead of a fatal signal
+                libc::signal(libc::SIGXFSZ, libc::SIG_IGN);
+                let lim = libc::rlimit {
+                    rlim_cur: limit,
+                    rlim_max: limit,
+                };
+                libc::setrlimit(libc::RLIMIT_FSIZE, &lim);
+            }
             // Own session with the pty as controlling terminal, like a shell would set it up
             libc::prctl(libc::PR_SET_PDEATHSIG, libc::SIGKILL);
             libc::setsid();
@@ -246,6 +284,21 @@ pub fn run_pty(scratch: &Scratch, asm: &Path, minimal: bool, cols: u16, history_
         pending.clear();
         let want = enters;
         ok = wait(&mut run, &mut child, &mut exited, &format!("newline for Enter #{}", want), &|r| newlines(&r.stdout) >= want);
+        for (k, key) in chunk.program_keys.iter().enumerate() {
+            if !ok || exited.is_some() {
+                break;
+            }
+            // The program is waiting for a key: the terminal is raw again
+            ok = wait(&mut run, &mut child, &mut exited, &format!("raw mode for program input #{} of line #{}", k, want), &|_| is_raw(m));
+            if ok {
+                let written = unsafe { libc::write(m, key.as_ptr() as *const libc::c_void, key.len()) };
+                ok = written == key.len() as isize;
+            }
+        }
+        if ok && !chunk.program_keys.is_empty() && i + 1 < chunks.len() {
+            let want_redraws = chunk.redraws_after;
+            ok = wait(&mut run, &mut child, &mut exited, &format!("prompt after line #{}", want), &|r| redraws(&r.tty).len() >= want_redraws);
+        }
         if ok && pending_submits && i + 1 < chunks.len() {
             ok = wait(&mut run, &mut child, &mut exited, &format!("raw mode after line #{}", want), &|_| is_raw(m));
         }
